@@ -311,6 +311,31 @@ Theorem C20_fnf_listing_exact : split_cs available [] = submat_names /\
 Proof. exact (conj listing_exact (fun name => proj1 (fnf_lists_all name))). Qed.
 Print Assumptions C20_fnf_listing_exact.
 
+(* a pathlib.Path that is no file is handed over as os.fspath(path) (path_norm, compared with pathlib on every generated
+   name): a bare name - also written "./name", "name/" or "name//" - arrives as that name, so Path objects resolve like strings *)
+Theorem C20_path_argument : forall s, no_slash s = true -> path_part s = true ->
+  path_norm s = s /\ path_norm ("."%byte :: "/"%byte :: s) = s /\ path_norm (s ++ [ "/"%byte ]) = s /\
+  path_norm (s ++ [ "/"%byte; "/"%byte ]) = s /\ submat_path s = submat_name s.
+Proof.
+  exact (fun s H1 H2 => conj (path_norm_bare s H1 H2) (conj (proj1 (path_norm_dot_slash s H1 H2))
+    (conj (proj1 (proj2 (path_norm_dot_slash s H1 H2))) (conj (proj2 (proj2 (path_norm_dot_slash s H1 H2)))
+    (f_equal submat_name (path_norm_bare s H1 H2)))))).
+Qed.
+Print Assumptions C20_path_argument.
+
+(* "for each row letter and column letter exactly the number at that position of the file", cell by cell: a matrix of
+   numbers with pairwise different letters, in any layout: the cell under row r and the j-th header letter denotes the
+   j-th number of r's row (and is an int iff the row has no decimal literal) *)
+Theorem C20_matrix_cell : forall e final mf m, mfile_ok mf = true ->
+  NoDup (mf_letters mf) -> NoDup (map fst (body_rows (mf_body mf))) ->
+  parse (render_with e final (to_afile mf)) = Some m ->
+  map fst m = map fst (body_rows (mf_body mf)) /\
+  forall r vals, In (r, vals) (body_rows (mf_body mf)) ->
+  forall j c v, nth_error (mf_letters mf) j = Some c -> nth_error vals j = Some v ->
+  exists v', cell m r c = Some v' /\ num_val_eqb v' v = true /\ is_int_num v' = forallb is_int_num vals.
+Proof. exact matrix_cell. Qed.
+Print Assumptions C20_matrix_cell.
+
 (* non-vacuity: a user file with a comment, a blank line, CRLF line ends, an integer row and a decimal row *)
 Example C20_witness :
   wf_content (unhex (bs "2320630d0a0d0a2020412020420d0a412020312020322e350d0a42092d3209370d0a"%bs)) = true /\
@@ -395,3 +420,7 @@ Example C20_witness_cell_grammar :
   py_float (bs "1_.5"%bs) = None /\ py_float (bs "1e"%bs) = None /\ py_float (bs "."%bs) = None /\
   line_parses [bs "A"%bs] (bs "r 1e5 x"%bs) = false /\ line_parses [bs "A"%bs] (bs "r 1.e5 x"%bs) = true.
 Proof. exact witness_cell_grammar. Qed.
+Example C20_witness_path : path_norm [] = bs "."%bs /\ path_norm (bs "a//b/./c/"%bs) = bs "a/b/c"%bs /\
+  path_norm (bs "//x"%bs) = bs "//x"%bs /\ path_norm (bs "///x/."%bs) = bs "/x"%bs /\ path_norm (bs "./."%bs) = bs "."%bs /\
+  path_norm (bs "x/../blosum62"%bs) = bs "x/../blosum62"%bs.
+Proof. exact path_witness. Qed.
